@@ -2165,6 +2165,10 @@ spec:
         r.is_some() ==> final(bp).cur() > old(bp).cur() && comp_at(r.unwrap(), old(bp).off(), final(bp).off()),
         // [C06] every timer that is emitted has a name or a quantity (a bare `~{}` gets an error and a recovered quantity)
         r.is_some() ==> r.unwrap() is Timer && (r.unwrap()->Timer_0.val().name.is_some() || r.unwrap()->Timer_0.val().quantity.is_some()),
+        // [C07] a timer whose quantity has no unit (written without one, or recovered because the duration is missing) is an error:
+        //       the last thing queued is that error
+        r.is_some() && r.unwrap() is Timer && r.unwrap()->Timer_0.val().quantity.is_some() && r.unwrap()->Timer_0.val().quantity.unwrap().val().unit.is_none()
+            ==> final(bp).evs().len() > old(bp).evs().len() && final(bp).evs().last() is Error,     // [C07]
 after `let body = comp_body(bp)?;`:
     proof { lemma_off_mono(bp.toks(), old(bp).cur() + 1, bp.cur()); lemma_names(); }
 after `let end = bp.current_offset();`:
